@@ -67,6 +67,9 @@ def _race_cases(run, logglob, first_case):
 
 def check(run):
     run.build()
+    # all interleavings of the scaled-down protocol model: the success invariants hold under every schedule
+    run.tlc_mc("Protocol", "Protocol.cfg" if run.thorough else "Protocol_quick.cfg", timeout=1500, xmx="12g",
+               label="alg/Protocol: every interleaving of walk, workers, request loop, receive loop, diff, writers; recv ok => every needed file complete")
     race = run.build(race=True)
     trace, st = run.drive("sync", name="sync-sched", extra=["-what", "sched"])
     racelog = os.path.join(run.work, "racelog")
